@@ -47,6 +47,10 @@ type c16Split struct {
 	Err      string     `json:"err"`
 	// growth (merge-cars, the inverse tool): the real merge of the written pieces vs the nul-root header followed by every
 	// piece's bytes after its header
+	// kind "splitfault": the same split with one piece file impossible to create (a directory of that name is in the way):
+	// the command has to fail loudly (non-zero exit / panic), or its output has to be complete all the same
+	Loud       bool `json:"loud"`
+	Complete   bool `json:"complete"`
 	MergedLen  int  `json:"mergedlen"`
 	MergeWant  int  `json:"mergewant"`
 	MergedSame bool `json:"mergedsame"`
@@ -257,7 +261,6 @@ func TestVerifC16Split(t *testing.T) {
 			}
 			// one output directory per archive, used again for every target (a re-split with other parameters overwrites the
 			// piece files of the previous one; the piece count grows with ti in the first five targets)
-			_ = ti
 			od := filepath.Join(dir, fmt.Sprintf("out-%d", ci))
 			os.MkdirAll(od, 0o755)
 			o := c16Split{Kind: "split", Target: target, Blocks: nblocks, Orig: kept, Families: fams, Pieces: []c16Piece{}, Readback: []int{}}
@@ -366,6 +369,46 @@ func TestVerifC16Split(t *testing.T) {
 				os.Remove(filepath.Join(od, "merged.car"))
 			}
 			out.Emit(o)
+			// output fault: the same split into a fresh directory in which the name of a late piece is taken by a directory
+			if o.Err == "" && ti == 3 && len(meta.CarPieces.CarPieces) >= 3 {
+				od2 := filepath.Join(dir, fmt.Sprintf("fault-%d", ci))
+				os.MkdirAll(od2, 0o755)
+				victim := meta.CarPieces.CarPieces[len(meta.CarPieces.CarPieces)-2].Name
+				os.MkdirAll(filepath.Join(od2, filepath.Base(victim), "in-the-way"), 0o755)
+				fo := c16Split{Kind: "splitfault", Target: target, Blocks: nblocks, Orig: kept, Families: fams, Pieces: []c16Piece{}, Readback: []int{}}
+				cmd := exec.Command(os.Args[0], "-test.run=^TestVerifC16SplitChild$")
+				cmd.Env = append(os.Environ(), "VERIF_C16_CAR="+carPath, "VERIF_C16_OUT="+od2, fmt.Sprintf("VERIF_C16_TARGET=%d", target), fmt.Sprintf("VERIF_C16_EPOCH=%d", epoch))
+				if b, err := cmd.CombinedOutput(); err != nil {
+					fo.Loud = true
+					tail := string(b)
+					if len(tail) > 200 {
+						tail = tail[len(tail)-200:]
+					}
+					fo.Err = "failed loudly: " + tail
+				} else if m2, err := splitcarfetcher.MetadataFromYaml(filepath.Join(od2, fmt.Sprintf("epoch-%d-metadata.yaml", epoch))); err == nil {
+					var flat []int
+					for _, p := range m2.CarPieces.CarPieces {
+						pb, err := os.ReadFile(p.Name)
+						if err != nil || p.HeaderSize+p.ContentSize > uint64(len(pb)) {
+							flat = nil
+							break
+						}
+						secs, _ := c16walk(pb[p.HeaderSize:p.HeaderSize+p.ContentSize], ids)
+						flat = append(flat, secs...)
+					}
+					fo.Complete = len(flat) == len(kept)
+					for i := 0; fo.Complete && i < len(flat); i++ {
+						fo.Complete = flat[i] == kept[i]
+					}
+					if !fo.Complete {
+						fo.Err = fmt.Sprintf("exit 0, but the pieces hold %d of the %d objects (or in another order)", len(flat), len(kept))
+					}
+				} else {
+					fo.Err = "exit 0 without readable metadata: " + err.Error()
+				}
+				out.Emit(fo)
+				os.RemoveAll(od2)
+			}
 		}
 		os.RemoveAll(filepath.Join(dir, fmt.Sprintf("out-%d", ci)))
 	}
